@@ -2,6 +2,7 @@
   C18 — Fleet scale-up never leaks instances, whatever step fails.
   (Also the list lemmas about batching used by C17.)
 -/
+import EscProofs.P.GenScaleUp
 import EscProofs.Lemmas.Run
 import EscProofs.Lemmas.Count
 namespace Esc.P
